@@ -307,6 +307,57 @@ func runR062(c *Ctx) {
 	if nid == 0 {
 		c.Fail(name, "same-entry-test", c.Pos(fn.Pos()), "Put never tests whether the slot already holds the entry being inserted")
 	}
+	// the slot probed is recomputed from the record in hand on every iteration: inside
+	// the loop the slot's computation reads the carried record's key (the whole
+	// RecordKey handed to the slot function, or its Key field) – a hash of the
+	// original key kept across iterations is wrong once a record was displaced
+	for _, gc := range func() []*ssa.Call {
+		var out []*ssa.Call
+		allInstrs(fn, func(ins ssa.Instruction) {
+			if cl, ok := ins.(*ssa.Call); ok && cl.Call.IsInvoke() && cl.Call.Method.Name() == "Get" && loadOfRecvField(fn, cl.Call.Value, "recordArray") {
+				out = append(out, cl)
+			}
+		})
+		return out
+	}() {
+		hdr := innermostLoopHeader(gc.Block())
+		usesKeyInLoop := false
+		deepSlice(fn, gc.Call.Args[0], func(x ssa.Value) bool {
+			ins, ok := x.(ssa.Instruction)
+			if !ok || hdr == nil || !hdr.Dominates(ins.Block()) {
+				return true
+			}
+			switch t := x.(type) {
+			case *ssa.FieldAddr:
+				if rootAlloc(t) == carried {
+					n := fieldOf(t).Name()
+					if n == "RecordKey" {
+						// the whole key handed on (by address) – or only used to reach Attempt?
+						onlyAttempt := true
+						if refs := t.Referrers(); refs != nil {
+							for _, r := range *refs {
+								if fa2, ok := r.(*ssa.FieldAddr); ok && fieldOf(fa2).Name() == "Attempt" {
+									continue
+								}
+								if _, ok := r.(*ssa.DebugRef); ok {
+									continue
+								}
+								onlyAttempt = false
+							}
+						}
+						if !onlyAttempt {
+							usesKeyInLoop = true
+						}
+					}
+					if n == "Key" {
+						usesKeyInLoop = true
+					}
+				}
+			}
+			return true
+		})
+		c.Check(usesKeyInLoop, name, "slot-from-record-in-hand", c.Pos(gc.Pos()), "the probed slot is computed from the carried record's key in every iteration", "the slot that is probed does not depend on the key of the record currently carried as computed inside the loop (a hash of the original key is kept across iterations): once a record was displaced it is re-inserted along the probe sequence of the other key, where lookups for its own key never look – the entry is lost without a counted discard")
+	}
 	// displacement: *carried = *old
 	nd := 0
 	for _, r := range *carried.Referrers() {
